@@ -145,6 +145,7 @@ RECV_OF = {"String": "str", "StringIter": None, "Tuple": "tuple", "TupleIter": N
            "Range": "range", "RangeIter": None, "HashMap": "map", "Fiber": "fiber"}
 ITER_RECV = {"StringIter": ["iter:str", "iter:str-done"], "TupleIter": ["iter:tuple", "iter:tuple-done"],
              "VecIter": ["iter:vec", "iter:vec-done"], "RangeIter": ["iter:range", "iter:range-done", "iter:range-down"]}
+TARGETED = {"String#find": ("str", "num"), "String#replace": ("str", "str"), "vm:set_item": ("num", "nil")}
 CLASS_RECV = Val("class:static", "", (8, 0, 0, 0, 0), "class")
 NATIVE_RECV = Val("native:self", "", (11, 0, 0, 0, 0), "native")
 
@@ -268,12 +269,17 @@ def gen_probes(ctx, per_right, per_wrong):
                 tuples = tuples[:max(per_right, len(POOL))] if native in ("HashMap#insert", "vm:set_item") else tuples[:per_right]
             else:
                 tuples = [tuple(rng.choice(POOL) for _ in range(nargs)) for _ in range(per_wrong)]
+            if right and native in TARGETED and nargs == 2:
+                k1, k2 = TARGETED[native]
+                tuples = [(a, b) for a in BY_KIND[k1] for b in BY_KIND[k2]] + tuples
             for k, t in enumerate(tuples):
                 if native in ("Object#derives", "vm:set_item"):
                     # receivers of every kind: rotate through the pool (each pool value at least once)
                     rs = [recvs[(k * 7 + j) % len(recvs)] for j in range(2 if native == "Object#derives" else 1)]
                     if native == "vm:set_item" and k % 3 != 0:
                         rs = [rng.choice(BY_KIND["vec"])]
+                    if native == "vm:set_item" and k < len(BY_KIND["num"]) * len(POOL[:1]):
+                        rs = BY_KIND["vec"]       # every vec x every number class (targeted tuples come first)
                 else:
                     rs = recvs if (right and len(recvs) <= 8 and k < 12) else [recvs[k % len(recvs)]]
                 for r in rs:
@@ -288,6 +294,88 @@ def gen_probes(ctx, per_right, per_wrong):
     for c in ("self-fresh0", "self-deep", "self-resumed"):
         probes.append(Probe("Fiber#has_finished", None, [], c))
     return probes
+
+
+INDEXES = ["1..2", "2..4", "0..11", "0..12", "-1..-3", "5..5", "1..-1", "-9223372036854775808..2"]
+OPS2 = ["+", "-", "*", "/", "%", "&", "|", "^", "<<", ">>", "<", ">", "<=", ">=", "==", "!=", "and", "or", ".."]
+OPS1 = ["-", "!", "~"]
+PROPS = ["len", "context", "nope", "call", "next", "new"]
+
+
+def gen_op_snippets(ctx, n2):
+    """oracle-only probes of the VM's own operators on every kind: r[i] for every receiver x every number / range
+    (mid-character offsets of a 1-4-byte string included), binary and unary operators on kind pairs, property get/set, call"""
+    rng = ctx.rng
+    tmpl = 'try { var res = %s; print("ok"); } catch e { print("err"); print(type(e)); }'
+    out = []
+    idx = [v for v in POOL if v.kind in ("num", "range", "nil", "str")]
+    for r in POOL:
+        if r.kind in ("str", "tuple", "vec"):
+            for i in idx:
+                out.append((r, i, tmpl % "r[a0]"))
+            for e in INDEXES:
+                out.append((r, None, tmpl % ("r[%s]" % e)))
+        else:
+            out.append((r, rng.choice(idx), tmpl % "r[a0]"))
+        for o in OPS1:
+            out.append((r, None, tmpl % ("(%sr)" % o)))
+        for pr in PROPS:
+            out.append((r, None, tmpl % ("r.%s" % pr)))
+        out.append((r, rng.choice(POOL), "try { r.fld = a0; print(\"ok\"); } catch e { print(\"err\"); print(type(e)); }"))
+        out.append((r, rng.choice(POOL), tmpl % "r(a0)"))
+        out.append((r, None, tmpl % "r()"))
+        out.append((r, None, 'try { for q in r { print("it"); } print("ok"); } catch e { print("err"); print(type(e)); }'))
+        out.append((r, None, 'try { print("<${r}>"); print("ok"); } catch e { print("err"); print(type(e)); }'))
+        out.append((r, None, 'try { throw r; } catch e { print("err"); print(type(e)); }'))
+    kinds = sorted(BY_KIND)
+    for k1 in kinds:
+        for k2 in kinds:
+            for o in rng.sample(OPS2, 6):
+                out.append((rng.choice(BY_KIND[k1]), rng.choice(BY_KIND[k2]), tmpl % ("(r %s a0)" % o)))
+    for _ in range(n2):
+        out.append((rng.choice(POOL), rng.choice(POOL), tmpl % ("(r %s a0)" % rng.choice(OPS2))))
+    snippets = []
+    for r, a, body in out:
+        pre = ["{"]
+        if a is not None:
+            pre.append(a.code("a0"))
+        pre.append(r.code("r"))
+        pre.append(body)
+        pre.append("}")
+        snippets.append("\n".join(pre))
+    return snippets
+
+
+def run_op_snippets(ctx, binary, snippets, group, what):
+    """returns (#ok, #err, failures [(source, description)])"""
+    reqs = [PRELUDE + "\n".join('print("#%d");\n%s' % (i + j, sn) for j, sn in enumerate(snippets[i:i + group])) for i in range(0, len(snippets), group)]
+    recs = run_confirmed(ctx, binary, [mods_line(s) for s in reqs], what)
+    ok = err = 0
+    fails = []
+    redo = []
+    for k, (src, r) in enumerate(zip(reqs, recs)):
+        bad = bad_record(r)
+        if bad is None and r.result[0] == "ok":
+            got = parse_probe_output(r.output)
+            for ls in got.values():
+                if "ok" in ls:
+                    ok += 1
+                elif "err" in ls:
+                    err += 1
+        else:
+            redo.extend(range(k * group, min(len(snippets), (k + 1) * group)))
+    if redo:
+        one = [PRELUDE + snippets[i] for i in redo]
+        r2 = yvlib.run_harness(binary, [mods_line(s) for s in one], quarantine=True, case_timeout_ms=30000, recycle=20)
+        for s1, r in zip(one, r2):
+            bad = bad_record(r)
+            if bad or r.result[0] != "ok":
+                fails.append((s1, bad or ("script error: %s" % r.messages[:2])))
+            elif "ok" in r.output:
+                ok += 1
+            else:
+                err += 1
+    return ok, err, fails
 
 
 def gen_derived_probes(ctx, per):
@@ -837,6 +925,17 @@ def run(ctx):
 
     log('[C02] derived-receiver probes: %d in %.1fs' % (len(dprobes), time.time() - t0))
     t0 = time.time()
+    # ---- VM operators on every kind (oracle only; indexing bodies are StrFns.v's) ----
+    ops = gen_op_snippets(ctx, 300 if quick else 6000)
+    op_ok, op_err, op_fails = run_op_snippets(ctx, binary, ops, 24, "debug operator")
+    for s1, bad in op_fails[:3]:
+        ctx.violation("a VM operator applied to adversarial operands does not end in a value or a reported error: %s" % bad, input=s1,
+                      expected="Ok or Err(Error)", actual=bad)
+    hist["op:ok"] = op_ok
+    hist["op:err"] = op_err
+    hist["op:fail"] = len(op_fails)
+    log('[C02] operator probes: %d in %.1fs' % (len(ops), time.time() - t0))
+    t0 = time.time()
     # ---- (b) ill-typed programs: oracle impl == S ----
     nprog = 500 if quick else 3000
     gen = ProgGen(rng)
@@ -926,7 +1025,8 @@ def run(ctx):
     log('[C02] site check: %d functions in %.1fs' % (fns, time.time() - t0))
     ncalls = len(probes) + len(dprobes)
     ctx.cov.update({
-        "evaluations": ncalls + len(progs) * len(builds) + len(KNOWN) + (len(probes) if not quick else 0),
+        "operator_probes": len(ops),
+        "evaluations": ncalls + len(ops) + len(progs) * len(builds) + len(KNOWN) + (len(probes) if not quick else 0),
         "distinct_nontrivial": len(nontrivial),
         "rule": "native calls: distinct (native, fiber context, receiver kind, argument-kind vector) combinations whose outcome is NOT an arity error "
                 "(the call got past check_num_args / the at-most-1 test); kinds as in NativesModel.akind (number class, vec length, tuple hashability, "
